@@ -8,4 +8,10 @@ ClsSets(c) == IF c THEN [UPairs -> {"below", "equal", "above"}] ELSE [UPairs -> 
 Ends(m) == IF m = {} THEN {0} ELSE {2, 3, 6}
 cScn == UNION {UNION {{[custom |-> c, htype |-> h, cls |-> f, mask |-> m, slmEnd |-> e, T |-> <<0, 2, 4, 6>>, backend |-> b] :
                          f \in ClsSets(c), e \in Ends(m), h \in {"ising", "xy"}, b \in {"sv", "mps"}} : m \in SUBSET Atoms} : c \in BOOLEAN}
+(* N = 4 (thorough tier): every below / above assignment of the six pairs, for a user matrix also every
+   assignment with exactly one pair equal to the cutoff; Rydberg interaction; every mask subset *)
+OneEqual == {f \in [UPairs -> {"below", "equal", "above"}] : Cardinality({p \in UPairs : f[p] = "equal"}) = 1}
+ClsSets4(c) == [UPairs -> {"below", "above"}] \cup (IF c THEN OneEqual ELSE {})
+cScn4 == UNION {UNION {{[custom |-> c, htype |-> "ising", cls |-> f, mask |-> m, slmEnd |-> e, T |-> <<0, 2, 4, 6>>, backend |-> b] :
+                         f \in ClsSets4(c), e \in Ends(m), b \in {"sv", "mps"}} : m \in SUBSET Atoms} : c \in BOOLEAN}
 ====
